@@ -117,7 +117,7 @@ func shortHex(b []byte) string {
 
 const jqCommon = `
 def tb: if type == "null" then null else tobytes end;
-def plain: if type == "number" then . + 0 elif type == "string" then . + "" elif type == "boolean" then (. and true) else . end;
+def plain: if type == "null" then null elif type == "number" then . + 0 elif type == "string" then . + "" elif type == "boolean" then (. and true) else . end;
 def act: if type == "null" then null else (._actual | plain) end;
 def desc: if type == "null" then null else (._description | plain) end;
 def errs: (._error | if type == "null" then null else (try (.error | tostring) catch "error") end);
